@@ -596,6 +596,58 @@ func checkC01(res *Result) {
 				// wrapped as a one-element []interface{} that the same loop ranges over
 				listForm, scalarForm := false, false
 				var listVar types.Object
+				// a local closure that applies the reader to its first parameter is the reader for
+				// this purpose: its calls are the applications, the call inside it is not
+				readerLike := map[types.Object]*ast.FuncLit{}
+				ast.Inspect(pd.Body, func(n ast.Node) bool {
+					as, ok := n.(*ast.AssignStmt)
+					if !ok || len(as.Lhs) != 1 || len(as.Rhs) != 1 {
+						return true
+					}
+					lit, ok := as.Rhs[0].(*ast.FuncLit)
+					id, ok2 := as.Lhs[0].(*ast.Ident)
+					if !ok || !ok2 || lit.Type.Params == nil || len(lit.Type.Params.List) == 0 || len(lit.Type.Params.List[0].Names) == 0 {
+						return true
+					}
+					p0 := info.ObjectOf(lit.Type.Params.List[0].Names[0])
+					ast.Inspect(lit.Body, func(m ast.Node) bool {
+						if c, ok := m.(*ast.CallExpr); ok && len(c.Args) >= 1 {
+							if f := calleeFunc(info, c); f != nil && pm.G.Funcs[f.Name()] == pm.ElemDeser {
+								if a, ok := c.Args[0].(*ast.Ident); ok && info.ObjectOf(a) == p0 {
+									readerLike[info.ObjectOf(id)] = lit
+								}
+							}
+						}
+						return true
+					})
+					return true
+				})
+				isReaderCall := func(c *ast.CallExpr) bool {
+					if f := calleeFunc(info, c); f != nil && pm.G.Funcs[f.Name()] == pm.ElemDeser {
+						return true
+					}
+					if id, ok := c.Fun.(*ast.Ident); ok && readerLike[info.ObjectOf(id)] != nil {
+						return true
+					}
+					return false
+				}
+				if len(readerLike) > 0 {
+					var sites []*ast.CallExpr
+					ast.Inspect(pd.Body, func(n ast.Node) bool {
+						if lit, ok := n.(*ast.FuncLit); ok {
+							for _, rl := range readerLike {
+								if rl == lit {
+									return false
+								}
+							}
+						}
+						if c, ok := n.(*ast.CallExpr); ok && isReaderCall(c) {
+							sites = append(sites, c)
+						}
+						return true
+					})
+					calls = sites
+				}
 				ast.Inspect(pd.Body, func(n ast.Node) bool {
 					rs, ok := n.(*ast.RangeStmt)
 					if !ok {
@@ -608,7 +660,7 @@ func checkC01(res *Result) {
 					vid, _ := rs.Value.(*ast.Ident)
 					ast.Inspect(rs.Body, func(m ast.Node) bool {
 						if c, ok := m.(*ast.CallExpr); ok && len(c.Args) >= 1 && vid != nil {
-							if f := calleeFunc(info, c); f != nil && pm.G.Funcs[f.Name()] == pm.ElemDeser {
+							if isReaderCall(c) {
 								if a, ok := c.Args[0].(*ast.Ident); ok && info.ObjectOf(a) == info.ObjectOf(vid) {
 									listForm = true
 									if id, ok := rs.X.(*ast.Ident); ok {
